@@ -11,6 +11,7 @@ pub const TOK: &str = "TOK-aaaaaa"; // canonical, lock/unlock
 pub const MB: &str = "MBT-bbbbbb"; // custom mint/burn
 pub const OTH: &str = "OTH-cccccc"; // unregistered
 pub const EGLD_ESDT: &str = "EGLD-000000";
+pub const EGLX: &str = "EGLD-abcdef"; // an ordinary ESDT whose ticker happens to be EGLD
 pub const CHAIN: &[u8] = b"multiversx";
 pub const ETH: &[u8] = b"ethereum";
 pub const ETH_ITS: &[u8] = b"0xEthereumItsAddress";
@@ -141,14 +142,15 @@ pub fn setup(rng: &mut Rng, sink: &mut Sink) -> World {
     let gw = gateway::setup_with_sets(rng, sink); // reset, users 0..4, gateway
     for i in 0..8 {
         sink.exec(&format!(
-            "acct {} 10000000000000000000 {}:0:1000000,{}:0:1000000,{}:0:1000000,{}:0:1000000,{}:3:1000,{}:2:1000",
+            "acct {} 10000000000000000000 {}:0:1000000,{}:0:1000000,{}:0:1000000,{}:0:1000000,{}:3:1000,{}:2:1000,{}:0:1000000",
             hex::encode(user(i)),
             TOK,
             MB,
             OTH,
             EGLD_ESDT,
             TOK,
-            OTH
+            OTH,
+            EGLX
         ));
     }
     let owner = user(0);
@@ -501,7 +503,7 @@ fn step(rng: &mut Rng, sink: &mut Sink, w: &mut World, focus: &str) {
                 let mut dest_chain = rng.pick(&[ETH.to_vec(), ETH.to_vec(), AVA.to_vec(), AVA.to_vec(), b"polygon".to_vec()]).clone();
                 let mut dest_addr = rng.pick(&[b"0xRecipient".to_vec(), b"r".to_vec(), vec![0xab; 40]]).clone();
                 // payment shape
-                let shape = if tok == "EGLD" { 0 } else { rng.range(1, 4) as u64 };
+                let shape = if tok == "EGLD" { 0 } else { rng.range(1, 5) as u64 };
                 let mut gas = match shape {
                     0 | 1 => *rng.pick(&[0u128, 0, 1, amount - 1]).min(&(amount - 1)),
                     _ => *rng.pick(&[1u128, 5, amount, amount + 3]),
@@ -512,6 +514,7 @@ fn step(rng: &mut Rng, sink: &mut Sink, w: &mut World, focus: &str) {
                     2 => Some((EGLD_ESDT.to_string(), 0, gas)),
                     3 => Some((OTH.to_string(), 0, gas)),
                     4 => Some((tok.clone(), 0, gas)),
+                    5 => Some((EGLX.to_string(), 0, gas)), // gas in an ESDT that merely looks like EGLD
                     _ => None,
                 };
                 let mut third = false;
